@@ -32,7 +32,7 @@ def _rand_case(rng):
     callers = [{"key": rng.choice([0, 0, 0, 1]), "yields": rng.randint(0, 3), "out": rng.choice(["ret", "ret", "ret", "raise", "raise", "ret0", "cancel_self"]),
                 "form": rng.choice(["pos", "pos", "kw"])} for _ in range(n)]      # ret0: the body returns the falsy value 0; form: f(k) or f(k=k)
     return {"kind": rng.choice(["cache", "cache", "cache_lock", "early", "soft", "method", "method"]), "callers": callers,
-            "extra": rng.random() < 0.5, "cancel": rng.choice([None, 0, 1, n - 1]), "bursts": sorted(rng.sample(range(1, 12), rng.choice([0, 0, 1, 2]))),
+            "extra": rng.random() < 0.5, "decor_first": rng.random() < 0.3, "cancel": rng.choice([None, 0, 1, n - 1]), "bursts": sorted(rng.sample(range(1, 12), rng.choice([0, 0, 1, 2]))),
             "schedule": [rng.randrange(12) for _ in range(30)]}
 
 
@@ -90,8 +90,9 @@ def _run(case):
         async def main():
             from cashews import Cache
             cache = Cache()
-            cache.setup("mem://?check_interval=0&size=100000")
-            await cache.init()
+            if not case.get("decor_first"):      # (otherwise the function is decorated before the cache is configured, as module-level code does)
+                cache.setup("mem://?check_interval=0&size=100000")
+                await cache.init()
 
             async def body(k, trace=None):       # `trace` is not part of the cache key
                 c = who.get()
@@ -128,6 +129,10 @@ def _run(case):
                 async def f(k, trace=None):      # (the automatic key names every parameter: no extra argument here)
                     return await objs[k].m()
             else: f = cache.soft(ttl=100000, soft_ttl=50000, key="k:{k}")(body)
+
+            if case.get("decor_first"):
+                cache.setup("mem://?check_interval=0&size=100000")
+                await cache.init()
 
             async def caller(i):
                 try:
